@@ -16,7 +16,8 @@ INFO = {
                 "and the registry at positions 0..len+2 and extreme usize values, all five Rules methods and "
                 "prepare/enforce/compare of the four profiles through Profile and PrecisFastInvocation and all argument "
                 "forms, stabilize, Codepoints comparisons, Display of errors) is called under catch_unwind on: every u32 in "
-                "0..=0x10FFFF plus boundary/random values above; ALL strings over a 9-symbol 1-4 byte alphabet up to length "
+                "0..=0x10FFFF plus boundary/random values above; every scalar value as a one-character string (and after a "
+                "letter) through all Rules methods, prepare/enforce and allows; ALL strings over a 9-symbol 1-4 byte alphabet up to length "
                 "5 (quick) / 6 (thorough); all strings over 7 space/multi-byte symbols up to length 7 / 9 and all sequences of up to "
                 "5 / 6 block-level symbols (16-byte ASCII blocks, multi-byte runs, space kinds) through the enforce paths; random "
                 "hostile strings; long inputs with the interesting characters at power-of-two byte offsets, same-length variants "
@@ -62,8 +63,9 @@ INFO = {
     "C04": {
         "rule": "prepare and enforce of UsernameCaseMapped / UsernameCasePreserved are compared with a reference pipeline "
                 "(width map from UnicodeData 16.0.0, non-empty, reference IdentifierClass acceptance, per-character lowercase "
-                "for the mapped profile, NFC called directly, non-empty, then the library's own directionality step, which C09 "
-                "owns) on: all strings over the 9-symbol alphabet up to length 5 / 7; long inputs (cores at power-of-two byte "
+                "for the mapped profile, NFC called directly, non-empty, then the RFC 5893 reference verdict - except on labels with the shape of the open "
+                "finding F4, where the library's own step is taken) on: every Unicode scalar value alone, after/before U+05D0 and after U+FF21; all strings over the 9-symbol "
+                "alphabet up to length 5 / 7; long inputs (cores at power-of-two byte "
                 "offsets, runs of combining marks, same-length variants in one buffer), each call preceded by a call of another "
                 "profile on the same input and repeated with an owned argument; generated names and their variants "
                 "(fullwidth capitals, halfwidth katakana + voiced marks, upper-case base + mark where lowercase and NFC do not "
@@ -197,7 +199,7 @@ INFO = {
                 "and run in-process on UCD directories written by the monitor: the pinned 6.3.0 / 16.0.0 inputs, synthetic "
                 "well-formed files (random segments of singles, First/Last ranges incl. First==Last, gaps of 0/1/many, value "
                 "runs, first entry != U+0000, early or U+10FFFD end, wide/narrow/compat/canonical decompositions, ends at U+10FFFD or U+10FFFE, property "
-                "files with single/range/split lines, intervals straddling plane boundaries, ending at U+10FFFF, 90,000 long) and perturbations of the real files (windows, subsets, run-wise "
+                "files with single/range/split lines in ascending, shuffled, descending or by-code-point order, intervals straddling plane boundaries, ending at U+10FFFF, 90,000 long) and perturbations of the real files (windows, subsets, run-wise "
                 "re-assignment, folding singles into ranges and splitting ranges). Every emitted table is parsed back, "
                 "searched with the library's binary_search_by idiom over precis_core::Codepoints at every entry/truth "
                 "boundary (every code point when an anomaly is seen) and its denotation compared exactly with the ground "
@@ -229,7 +231,7 @@ INFO = {
                 "'A or B' with 1-3 blanks, descriptions with commas/quotes/empty/non-ASCII) and must read back through "
                 "PrecisDerivedProperty::from_str and, in files with header, LF/CRLF and with/without final newline, through "
                 "CsvLineParser in file order; 16 kinds of damage (field deleted/emptied, hex digit corrupted, sign or blank "
-                "inserted, beyond U+10FFFF, broken or unknown property, 'or' without operands, wrong separator, empty line) "
+                "inserted, beyond U+10FFFF, broken or unknown property, 'or' without operands, wrong separator, empty line, long multi-byte text in the code point or property column) "
                 "must give Err with the 1-based line number; reversed ranges / lower-case hex only for 'no panic'; a 70,000-row "
                 "file (line numbers beyond 65,535) with rows of up to 290 KB; code point fields of 9-16 hex digits; the "
                 "registry snapshot itself row by row against the own parser. Non-trivial = distinct lines / files.",
